@@ -8,15 +8,18 @@ without being queued or retransmitted."
 `C15_total_net_fuel` (`update()` returns, open system, explicit fuel bound, modulo the contracts
 `L3Contracts` on `RF24.send` / `RF24.resend`); `C15_contracts` (the contracts are proved) and the
 unconditional `C15_total_proved`, `C15_total_net_fuel_proved`, `C15_total_after_begin_proved`,
-`C15_history_proved` (last section).
+`C15_history_proved`.  Payloads of length 0 (last section): `C15_len0_refused` (the model's radio
+never delivers one), `C15_history_len0` (totality for injected / scripted payloads of 0..32 bytes),
+`C15_len0_update` / `C15_len0_blocks` (what the driver code does if a radio does deliver one: `update()`
+returns 0, the entry is never removed from the RX FIFO and blocks every later frame).
 -/
 import NrfProofs.Addr
 import NrfProofs.C15Drop
 import NrfProofs.C15Master
 import NrfProofs.C15Env
 import NrfProofs.C15Discharge
+import NrfProofs.C15Len0
 import NrfProps.C07
-import NrfProofs.GenTieStructs
 
 namespace Nrf.Props.C15
 open Nrf Nrf.Net Nrf.Spec Nrf.Proofs Nrf.Props.C07
@@ -134,7 +137,9 @@ The sources of exceptions in the model of `update()` and why none fires:
 * `message[0]`, `struct.unpack("<H", message[:2])` on the master: guarded by the length test of
   the code itself;
 * `self._rf24.read()` on a radio without dynamic payloads / with an empty FIFO, `send` with an empty
-  or over-long payload: `TI` (shadows of DYNPD / FEATURE on; RX payloads of 1..32 bytes), and
+  or over-long payload: `TI` (shadows of DYNPD / FEATURE on; RX FIFO entries and scripted arrivals of
+  0..32 bytes: a 0-byte arrival is refused by the model's radio, a 0-byte FIFO entry makes `read()`
+  return `None` — see the last section), and
   fragments are cut to ≤ 24 + 8 bytes;
 * the `IndexError` of the master's `_dhcp()` retry (FINDING, fixed — see `C15_finding_dhcp_retry`). -/
 
@@ -156,7 +161,7 @@ theorem C15_fuel_eq (Lm tt rt m : Nat) : bUP Lm tt rt m = updateFuel Lm tt rt m 
 /-- **`update()` returns**, for EVERY node role (`kind` is arbitrary: RF24NetworkRoutingOnly,
     RF24Network, RF24MeshNoMaster, RF24Mesh as master or not), every address of the 781-node tree
     and multicast level 0..4, every admissible prefix/suffix, every content of the RX FIFO and
-    every arrival script (payloads of 1..32 bytes — all a radio with dynamic payloads can deliver —
+    every arrival script (payloads of 0..32 bytes — all a radio with dynamic payloads can deliver —
     of ANY content: short, invalid addresses, any message type, any fragment sequence), every
     lease table (ids / addresses below 2^15), every frame queue, every fault list, every other
     radio, every clock value — from any session state `s` in which
@@ -165,7 +170,7 @@ theorem C15_fuel_eq (Lm tt rt m : Nat) : bUP Lm tt rt m = updateFuel Lm tt rt m 
     * `TI Lm tt rt s` (`NrfProofs/C15Inv.lean`): open system, the node's radio exists, `CfgBytes`,
       `_addr` is a node of the tree with `_net_lvl ≤ 4`, `tx_timeout = tt`, `route_timeout = rt`,
       the driver's shadows of DYNPD / EN_DPL are on, the transmitter is idle (`TxS`), `frame_buf`
-      holds ≤ `Lm` bytes, RX FIFO entries and scripted arrivals have 1..32 bytes, the lease table
+      holds ≤ `Lm` bytes, RX FIFO entries and scripted arrivals have 0..32 bytes (`TI.rx`, `TI.arr`), the lease table
       is bounded, and
     * the master is not half-way through an `update()` (`DhcpIdle`),
 
@@ -458,21 +463,232 @@ example : (∀ c ∈ [Call.envFaults [.packetLost, .ackLost], .envArrive 0 1 [1,
   · show RxOk _; decide
   · trivial
 
-/-- **the validity statement, about the translation of the CURRENT source** (`NrfGen/Structs.lean`, which
-    `tools/py2lean.py` rewrites from `network/structs.py` on every run; tied to the model function by
-    `GenTie_is_address_valid`): for every non-negative `int` the source's `is_address_valid` returns
-    normally (its `while` loop ends within the fuel derived from its measure), and returns `True` exactly
-    for the reserved addresses and the values of digit lists of the 781-node tree; `None` gives `False`.
-    No hypotheses.  Trusted here: the translator and the semantics it assigns to its Python subset
-    (DESIGN, section on the generated tie); negative `int` arguments are outside the translation. -/
-theorem C15_valid_iff_source (a : Nat) :
-    (∃ b, Gen.is_address_valid (some a) = .ok b ∧ (b = true ↔ ValidAddr a))
-      ∧ Gen.is_address_valid none = .ok false :=
-  ⟨⟨isValid a, GenTie.GenTie_is_address_valid a, C15_valid_iff a⟩, rfl⟩
+/-! ## payloads of length 0 (review item: "length 0 is excluded")
 
-/-- both verdicts occur on the translated source: `0o5` and `0o100` valid, `0o6` and `0o11111` not -/
-example : Gen.is_address_valid (some 0o5) = .ok true ∧ Gen.is_address_valid (some 0o100) = .ok true
-    ∧ Gen.is_address_valid (some 0o6) = .ok false ∧ Gen.is_address_valid (some 0o11111) = .ok false :=
-  ⟨rfl, rfl, rfl, rfl⟩
+The property quantifies over "any received bytes", the review over "any length 0..32".  Two facts:
+
+1. **Under the model's radio a 0-byte payload never reaches the RX FIFO** (`C15_len0_refused`):
+   `World.inject` — the only way the environment of the open system puts a payload into a FIFO,
+   directly or through the arrival script — refuses it on every pipe (dynamic: length must be 1..32;
+   static: must equal RX_PW_Px ≠ 0), and no modelled transmitter can queue one (`W_TX_PAYLOAD` with no
+   data bytes is ignored; `RF24.write()` itself raises `ValueError` for an empty buffer).  So the
+   totality theorems extend to histories whose injected / scripted payloads have **0..32** bytes
+   (`C15_history_len0`; `TI.arr` and `TI.rx` now allow 0-byte arrivals / FIFO entries, so
+   `C15_total_proved`, `C15_total_net_fuel_proved`, `C15_history_proved` hold for RX FIFO contents and
+   arrival scripts of 0..32 bytes at any position: `update()` returns — `C15_len0_demo_ti`).
+2. **If a radio does deliver one** (the nRF24L01+ with DPL can: R_RX_PL_WID = 0) the driver's code
+   decides what happens, and the model transliterates that code: `any()` returns 0, `read()` returns
+   `None` *without issuing R_RX_PAYLOAD*, `_net_update()` takes `None` for "FIFO empty" and returns.
+   `C15_len0_update`: `update()` returns 0, nothing is queued or transmitted by the network layer —
+   **and the 0-byte entry is still at the head of the RX FIFO**; `C15_len0_blocks`: so is it after
+   any further history of `update()` calls and arrivals — every later payload stays unread behind it
+   until `flush_rx()`.  "Returns normally": yes.  "Dropped": no — the frame is never removed
+   (head-of-line blocking; a finding about the driver on real hardware, not reachable in the model's
+   radio and therefore not in the harness; see MERGE_NOTES / known findings). -/
+
+/-- **Under the model's radio a 0-byte payload is never delivered and never sent**: injecting it
+    changes nothing, in every world, on every radio and pipe (dynamic or static payload length);
+    `W_TX_PAYLOAD` / `W_ACK_PAYLOAD` with no data leave the TX FIFO alone. -/
+theorem C15_len0_refused :
+    (∀ (w : World) (j p : Nat), w.inject j p [] = w) ∧
+    (∀ (r : Radio) (k : TxKind), r.writePayload k [] = r) := by
+  refine ⟨World.inject_nil, fun r k => ?_⟩
+  unfold Radio.writePayload
+  simp
+
+/-- `UpdEnv` with payloads of **0..32** bytes -/
+def UpdEnv0 : Call → Prop
+  | .update => True
+  | .envArrive _ _ data => data = [] ∨ RxOk data
+  | .envInject _ data => data = [] ∨ RxOk data
+  | .envFaults _ => True
+  | _ => False
+
+/-- **Every `update()` of every history returns — payloads of 0..32 bytes.**  `C15_history_proved`
+    with the length restriction 1..32 relaxed to 0..32 for injected payloads and scripted arrivals
+    (under the model's radio the 0-byte ones are refused when they arrive, `C15_len0_refused`); same
+    hypotheses on the state otherwise, open system. -/
+theorem C15_history_len0 (cs : List Call) (s : NetState) (hl : NodeListens s)
+    (hi : TI 144 25 75 s) (hd : DhcpIdle s) (hcs : ∀ c ∈ cs, UpdEnv0 c) (hm : s.M + cs.length ≤ 88000) :
+    ∃ s', Runs cs s s' ∧ NodeListens s' ∧ TI 144 25 75 s' ∧ DhcpIdle s' ∧ s'.M ≤ s.M + cs.length := by
+  induction cs generalizing s with
+  | nil => exact ⟨s, Runs.nil s, hl, hi, hd, Nat.le_refl _⟩
+  | cons c cs ih =>
+    have hu := hcs c (List.mem_cons_self ..)
+    have hrest : ∀ c' ∈ cs, UpdEnv0 c' := fun c' h' => hcs c' (List.mem_cons_of_mem _ h')
+    have hlen : (c :: cs).length = cs.length + 1 := rfl
+    have step : ∀ s1, nexec c.run s = (.ok (), s1) → NodeListens s1 → TI 144 25 75 s1 → DhcpIdle s1 →
+        s1.M ≤ s.M + 1 →
+        ∃ s', Runs (c :: cs) s s' ∧ NodeListens s' ∧ TI 144 25 75 s' ∧ DhcpIdle s' ∧
+          s'.M ≤ s.M + (c :: cs).length := by
+      intro s1 h1 l1 t1 d1 m1
+      obtain ⟨s', r, a, b, c', m'⟩ := ih s1 l1 t1 d1 hrest (by omega)
+      exact ⟨s', Runs.cons c cs s s1 s' h1 r, a, b, c', by omega⟩
+    have hcfg : CfgBytes s.node.cfg := hi.good
+    have listens : ∀ s1, nexec c.run s = (.ok (), s1) → c.Admissible → NodeListens s1 :=
+      fun s1 h1 ha => (C07_api c s s1 (Or.inl hi.open_) hl hcfg ha h1).1
+    cases c with
+    | update =>
+      obtain ⟨r, s1, h1, l1, t1, d1, m1⟩ := C15_total_net_fuel c15contracts s hl hi hd (by omega)
+      have h1' : nexec (Call.run .update) s = (.ok (), s1) := by
+        show nexec (apiUpdate >>= fun _ => pure ()) s = _
+        rw [nexec_bind7, h1]
+        rfl
+      exact step s1 h1' l1 t1 d1 (by omega)
+    | envArrive due pipe data =>
+      have h1 : nexec (Call.run (.envArrive due pipe data)) s
+          = (.ok (), s.setNode fun n => { n with arrivals := n.arrivals ++ [(due, pipe, data)] }) := rfl
+      obtain ⟨t1, m1, n1⟩ := hi.arrive0 due pipe data hu
+      refine step _ h1 (listens _ h1 trivial) t1 ?_ (by omega)
+      intro hk hz
+      rw [n1] at hk hz ⊢
+      exact hd hk hz
+    | envInject pipe data =>
+      have h1 : nexec (Call.run (.envInject pipe data)) s
+          = (.ok (), { s with w := s.w.inject s.node.rf.rid pipe data }) := rfl
+      rcases hu with h0 | hok
+      · have hsame : ({ s with w := s.w.inject s.node.rf.rid pipe data } : NetState) = s := by
+          rw [h0, World.inject_nil]
+        rw [hsame] at h1
+        exact step s h1 hl hi hd (by omega)
+      · obtain ⟨t1, m1⟩ := hi.inject pipe data hok
+        exact step _ h1 (listens _ h1 trivial) t1 hd m1
+    | envFaults l =>
+      have h1 : nexec (Call.run (.envFaults l)) s = (.ok (), { s with w := { s.w with faults := l } }) := rfl
+      obtain ⟨t1, m1⟩ := hi.faults l
+      exact step _ h1 (listens _ h1 trivial) t1 hd (by rw [m1]; omega)
+    | _ => exact absurd hu (by simp [UpdEnv0])
+
+/-- non-vacuity: a history with a 0-byte arrival and a 0-byte injection among ordinary ones; the state
+    hypotheses are those of `C15_history_proved` (`demo15`: `C15_demo_ti`, …) -/
+example : (∀ c ∈ [Call.envArrive 0 1 [], .update, .envInject 1 [], .envInject 1 [1, 0, 6, 0, 0, 0, 0, 0], .update],
+      UpdEnv0 c) ∧ TI 144 25 75 demo15 ∧ demo15.M + 5 ≤ 88000 := by
+  refine ⟨?_, C15_demo_ti, by decide⟩
+  intro c hc
+  simp only [List.mem_cons, List.not_mem_nil, or_false] at hc
+  rcases hc with rfl | rfl | rfl | rfl | rfl
+  · exact Or.inl rfl
+  · trivial
+  · exact Or.inl rfl
+  · exact Or.inr (by decide)
+  · trivial
+
+/-- **`update()` on a radio that did deliver a 0-byte payload.**  For every node role, in every
+    open-system state in which the running node's driver has dynamic payloads on in its shadow, its
+    transmitter is idle and the HEAD of its RX FIFO is an entry `e` of 0 bytes (`Len0Head`; anything
+    behind it, any arrival script, any world), with the master not half-way through `update()`:
+    the model's entry point `node.update()` **returns 0**; afterwards the same situation holds —
+    **`e` is still at the head of the RX FIFO**, which only grew at its tail; nothing was queued;
+    `frame_buf`, the header-id counter and the lease table are untouched; and if the radio listens
+    (PRIM_RX set, the invariant of C07) nothing was put on the air and the TX FIFO is as before. -/
+theorem C15_len0_update (s : NetState) (e : RxEntry) (h : Len0Head s e) (hd : DhcpIdle s) :
+    ∃ s', nexec apiUpdate s = (.ok 0, s') ∧ Len0Head s' e ∧ DhcpIdle s' ∧
+      (∃ add, s'.rxq = s.rxq ++ add) ∧ s'.node.queue = s.node.queue ∧
+      s'.node.frameBuf = s.node.frameBuf ∧ s'.nextId = s.nextId ∧ s'.node.dhcp = s.node.dhcp ∧
+      ((s.w.radio s.node.rf.rid).primRx = true →
+        s'.w.air = s.w.air ∧ (s'.w.radio s.node.rf.rid).txFifo = (s.w.radio s.node.rf.rid).txFifo) := by
+  obtain ⟨s', h1, h2, h3, h4, h5, h6, h7, h8, h9, h10, hread⟩ := nodeUpdate_len0 (F - 3) s e h hd
+  refine ⟨s', h1, h2, ?_, h3, h4, h5, h6, h8, ?_⟩
+  · intro hk hz
+    rw [h9]
+    exact hd (h7 ▸ hk) (h10 ▸ hz)
+  · intro hrx
+    have hq := (wp_any_iff _ _ _).1 (rfRead_quiet (F - 3) s h.open_ h.cur hrx) none s' hread
+    exact ⟨hq.air, hq.txf⟩
+
+/-- histories for `C15_len0_blocks`: `update()`, and ANY arrival / injection (any length, any pipe,
+    any due time) / fault list in between -/
+def AnyEnv : Call → Prop
+  | .update => True
+  | .envArrive _ _ _ => True
+  | .envInject _ _ => True
+  | .envFaults _ => True
+  | _ => False
+
+/-- **Head-of-line blocking by a 0-byte payload.**  From the situation of `C15_len0_update`, after
+    ANY history of `update()` calls and environment moves (no length bound; whatever arrives later):
+    every call returns, the 0-byte entry is still at the head of the RX FIFO, the FIFO only grew at
+    its tail, and the frame queue never received anything — no later frame is ever read. -/
+theorem C15_len0_blocks (cs : List Call) (s : NetState) (e : RxEntry) (h : Len0Head s e) (hd : DhcpIdle s)
+    (hcs : ∀ c ∈ cs, AnyEnv c) :
+    ∃ s', Runs cs s s' ∧ Len0Head s' e ∧ DhcpIdle s' ∧ (∃ add, s'.rxq = s.rxq ++ add) ∧
+      s'.node.queue = s.node.queue := by
+  induction cs generalizing s with
+  | nil => exact ⟨s, Runs.nil s, h, hd, ⟨[], by simp⟩, rfl⟩
+  | cons c cs ih =>
+    have hu := hcs c (List.mem_cons_self ..)
+    have hrest : ∀ c' ∈ cs, AnyEnv c' := fun c' h' => hcs c' (List.mem_cons_of_mem _ h')
+    have step : ∀ s1, nexec c.run s = (.ok (), s1) → Len0Head s1 e → DhcpIdle s1 →
+        (∃ add, s1.rxq = s.rxq ++ add) → s1.node.queue = s.node.queue →
+        ∃ s', Runs (c :: cs) s s' ∧ Len0Head s' e ∧ DhcpIdle s' ∧ (∃ add, s'.rxq = s.rxq ++ add) ∧
+          s'.node.queue = s.node.queue := by
+      intro s1 h1 l1 d1 ⟨add1, a1⟩ q1
+      obtain ⟨s', r, l', d', ⟨add', a'⟩, q'⟩ := ih s1 l1 d1 hrest
+      exact ⟨s', Runs.cons c cs s s1 s' h1 r, l', d', ⟨add1 ++ add', by rw [a', a1, List.append_assoc]⟩,
+        q'.trans q1⟩
+    cases c with
+    | update =>
+      obtain ⟨s1, h1, l1, d1, a1, q1, _⟩ := C15_len0_update s e h hd
+      have h1' : nexec (Call.run .update) s = (.ok (), s1) := by
+        show nexec (apiUpdate >>= fun _ => pure ()) s = _
+        rw [nexec_bind7, h1]
+        rfl
+      exact step s1 h1' l1 d1 a1 q1
+    | envArrive due pipe data =>
+      have h1 : nexec (Call.run (.envArrive due pipe data)) s
+          = (.ok (), s.setNode fun n => { n with arrivals := n.arrivals ++ [(due, pipe, data)] }) := rfl
+      obtain ⟨l1, n1, r1⟩ := h.arrive due pipe data
+      refine step _ h1 l1 ?_ ⟨[], by rw [r1]; simp⟩ (by rw [n1])
+      intro hk hz
+      rw [n1] at hk hz ⊢
+      exact hd hk hz
+    | envInject pipe data =>
+      have h1 : nexec (Call.run (.envInject pipe data)) s
+          = (.ok (), { s with w := s.w.inject s.node.rf.rid pipe data }) := rfl
+      obtain ⟨l1, a1⟩ := h.inject pipe data
+      exact step _ h1 l1 hd a1 rfl
+    | envFaults l =>
+      have h1 : nexec (Call.run (.envFaults l)) s = (.ok (), { s with w := { s.w with faults := l } }) := rfl
+      exact step _ h1 (h.faults l) hd ⟨[], (List.append_nil _).symm⟩ rfl
+    | _ => exact absurd hu (by simp [AnyEnv])
+
+/-- a session in the situation: `demo15`'s master with a 0-byte entry at the head of the RX FIFO, an
+    address request behind it and three scripted arrivals -/
+def demoLen0 : NetState :=
+  { demo15 with
+    w := { radios := [{ dynpd := 0x3F, feature := 5,
+                        rxFifo := [{ pipe := 1, data := [] },
+                                   { pipe := 1, data := [0x0d, 0, 0, 0, 1, 0, 0xc3, 7] }] }], busyUntil := [0] } }
+
+/-- non-vacuity of `C15_len0_update` / `C15_len0_blocks`: every hypothesis on the concrete session -/
+theorem C15_len0_demo : Len0Head demoLen0 { pipe := 1, data := [] } ∧ DhcpIdle demoLen0 :=
+  ⟨{ open_ := rfl, cur := by decide, feat := by decide,
+     txs := ⟨⟨Or.inl rfl, fun _ h => (by cases h), Nat.zero_le _⟩, fun h => absurd rfl h, by decide⟩,
+     head := ⟨_, rfl⟩, len0 := rfl }, fun _ _ => rfl⟩
+
+/-- the totality theorems apply to that session too: `TI` holds of it (a 0-byte entry in the RX FIFO is
+    within `TI.rx`), so `C15_total_net_fuel_proved` says `update()` returns on it -/
+theorem C15_len0_demo_ti : TI 144 25 75 demoLen0 where
+  open_ := rfl
+  cur := by decide
+  good := C07_good_of (by unfold CfgBytes; decide)
+  tree := ⟨[], by decide, 0, by decide, by decide⟩
+  tt := rfl
+  rt := rfl
+  dyn := by decide
+  feat := by decide
+  txs := ⟨⟨Or.inl rfl, fun _ h => (by cases h), Nat.zero_le _⟩, fun h => absurd rfl h, by decide⟩
+  msg := by decide
+  rx := by decide
+  arr := by decide
+  tab := by decide
+
+/-- … and what the model's `update()` does there (kernel evaluation): it returns 0 twice, the request
+    behind the 0-byte entry is never served (the lease table stays `[(7, 0o5)]`), the FIFO keeps both -/
+example :
+    (nexec apiUpdate demoLen0).1.toOption = some 0 ∧ (nexec apiUpdate (nexec apiUpdate demoLen0).2).1.toOption = some 0 ∧
+    (nexec apiUpdate (nexec apiUpdate demoLen0).2).2.node.dhcp = [(7, 0o5)] ∧
+    ((nexec apiUpdate (nexec apiUpdate demoLen0).2).2.rxq.map (·.data.length)).take 2 = [0, 8] := by
+  decide +kernel
 
 end Nrf.Props.C15
